@@ -156,6 +156,64 @@ Proof.
   rewrite N.eqb_refl, andb_true_r. destruct parsed; [| reflexivity]. cbn [andb]. now destruct (from <? 65535).
 Qed.
 
+(* ------------------------------------------------------------------------------------------ slot lookup *)
+
+Lemma locate_sound ids k i : locate ids k = Some i -> nth_error ids i = Some k.
+Proof.
+  revert i. induction ids as [| x t IH]; intros i; cbn [locate]; [discriminate |].
+  destruct (x =? k) eqn:E.
+  - intros H. inversion H. apply N.eqb_eq in E. now subst.
+  - destruct (locate t k) as [j |]; [| discriminate]. intros H. inversion H. cbn [nth_error]. now apply IH.
+Qed.
+
+Lemma locate_nth ids k i d : locate ids k = Some i -> nth i ids d = k /\ (i < length ids)%nat.
+Proof.
+  intros H. apply locate_sound in H. split.
+  - now apply nth_error_nth.
+  - apply nth_error_Some. rewrite H. discriminate.
+Qed.
+
+Lemma locate_none_iff ids k : locate ids k = None <-> ~ In k ids.
+Proof.
+  induction ids as [| x t IH]; cbn [locate In]; [tauto |].
+  destruct (x =? k) eqn:E.
+  - apply N.eqb_eq in E. split; [discriminate | intros H; exfalso; apply H; now left].
+  - apply N.eqb_neq in E. destruct (locate t k) as [j |].
+    + split; [discriminate |]. intros H. exfalso. apply H. right.
+      destruct IH as [_ IH2]. destruct (in_dec N.eq_dec k t) as [Hin | Hn]; [exact Hin |]. specialize (IH2 Hn). discriminate.
+    + split; [| reflexivity]. intros _ [H | H]; [contradiction |]. now apply (proj1 IH).
+Qed.
+
+Lemma locate_nonmember ids k : ~ In k ids -> locate ids k = None.
+Proof. apply locate_none_iff. Qed.
+
+Lemma locate_member ids k : In k ids -> exists i, locate ids k = Some i.
+Proof.
+  intros H. destruct (locate ids k) as [i |] eqn:E; [now exists i |]. apply locate_none_iff in E. contradiction.
+Qed.
+
+(* what is queued is filed under the slot of the transport sender itself, or under no slot *)
+Lemma on_msg_slot_bound c parsed ids from k s :
+  on_msg_slot c parsed ids from = Some (k, s) ->
+  k = from /\ (forall i, s = Some i -> nth_error ids i = Some from) /\ (s = None <-> ~ In from ids).
+Proof.
+  unfold on_msg_slot. destruct (on_msg_wire c parsed from) as [k' |] eqn:E; [| discriminate].
+  apply on_msg_wire_attribution in E. destruct E as [-> _]. intros H. inversion H. subst k s.
+  split; [reflexivity | split].
+  - intros i Hi. now apply locate_sound.
+  - apply locate_none_iff.
+Qed.
+
+(* the lookup of the code as it is now (shape generated from locatePartyIndex / OnMsg / partyIDsFromNumbers) *)
+Lemma slot_of_exact exact : exact = true ->
+  forall ids k, exists s, slot_of exact ids k = Some s /\
+    (forall i, s = Some i -> nth_error ids i = Some k) /\ (~ In k ids -> s = None).
+Proof.
+  intros -> ids k. exists (locate ids k). split; [reflexivity | split].
+  - intros i Hi. now apply locate_sound.
+  - apply locate_nonmember.
+Qed.
+
 (* ------------------------------------------------------------------------------------------ Sign *)
 
 Lemma sign_result_bound requested signed s : sign_result requested signed = SOk s -> s = requested /\ s = signed.
